@@ -151,6 +151,19 @@ theorem remove_blocked_by_lock (env : Env) (s : FSState) (f : File) (h1 : env.op
 
 /-! Non-vacuity: the premises are satisfiable and the conclusions are about real runs. -/
 
+-- the premise of `persist_exact_durable` is satisfiable: the routine with a `Truncate(0)` step after the
+-- open (the proposed repair) has it, and the full statement then holds for that program
+example : HasTruncate (canon ⟨[.O_CREATE, .O_RDWR], 0o600, .exclusive, true⟩) = true := by decide
+example : ExactDurable (canon ⟨[.O_CREATE, .O_RDWR], 0o600, .exclusive, true⟩) :=
+  canon_exact _ (by decide) (by decide)
+-- … and so is the premise of `persist_no_truncate_counterexample` (the routine as pinned)
+example : HasTruncate (canon ⟨[.O_CREATE, .O_RDWR], 0o600, .exclusive, false⟩) = false := by decide
+example : ¬ ExactDurable (canon ⟨[.O_CREATE, .O_RDWR], 0o600, .exclusive, false⟩) :=
+  canon_not_exact _ (by decide) (by decide)
+-- a prior file that IS longer, on the repaired routine: exact all the same (pure evaluation)
+example : ((interp (canon ⟨[.O_CREATE, .O_RDWR], 0o600, .exclusive, true⟩) witnessEnv witnessState).2.1.dir 10)
+    = some ⟨bNew, some bNew⟩ := by decide
+
 -- a successful run exists (so `ExactDurable…` is not vacuous): 5 bytes in chunks of 2 over a shorter prior file
 example : (interp persistProgram { name := 3, content := [1, 2, 3, 4, 5], chunks := [2, 2] }
     { dir := fun n => if n = 3 then some ⟨[9, 9], none⟩ else none }).1 = .ok := by decide
